@@ -417,7 +417,7 @@ pub fn run(ctx: &RunCtx) -> i32 {
                     req.headers.push(("x-verif-signed-1".into(), g.alnum(6).into_bytes()));
                     signed.push("x-verif-signed-1");
                 }
-                let ak = if g.chance(3, 4) { AK } else { AK2 };
+                let ak = crate::monitor::c05::pick_ak(&mut g);
                 let p = V4Params { access_key: ak.into(), secret: secrets[ak].clone(), amz_date: unix_to_amz_date(now_unix() + delta), region: "us-east-1".into(), service: "s3".into() };
                 v4_presign(&mut req, &p, expires, &signed);
                 // one URL in five is used over HTTP/2: no Host header, the authority (with its port) in the target
